@@ -423,7 +423,10 @@ func c18Run(c *c18Case, k int, kind string) c18RunRes {
 	res.Evs = srv.core.snapshot()
 	leaked := false
 	for _, tx := range c18Brackets(res.Evs) {
-		if tx.end == "" {
+		// "" : still open at the server. "connclosed": ended by the loss of the connection; the
+		// adapter may or may not have finished its client-side transaction object (a forgotten
+		// one keeps its pool slot for ever and makes pgxpool.Close block).
+		if tx.end == "" || tx.end == "connclosed" {
 			leaked = true
 		}
 	}
@@ -1149,10 +1152,21 @@ func c18GenCase(rt *rapid.T) *c18Case {
 	c.S = c18GenScript(rt)
 	dry := c18Dry(c) // fault-free run, to learn the number of statements n
 	pos := c18Positions(dry.Evs)
-	if len(pos) == 0 || rapid.IntRange(0, 19).Draw(rt, "faultfree") == 0 {
+	if len(pos) == 0 {
 		return c
 	}
-	c.K = rapid.IntRange(1, len(pos)).Draw(rt, "k")
+	// Fault position: rapid's integer generators favour the low end of a range, so the
+	// candidates are ordered with the interesting ones first: positions 2..n (something may
+	// already have been written), then 1 (BEGIN fails), then 0 (no fault at all).
+	var cands []int
+	for k := 2; k <= len(pos); k++ {
+		cands = append(cands, k)
+	}
+	cands = append(cands, 1, 0)
+	c.K = cands[rapid.IntRange(0, len(cands)-1).Draw(rt, "kIdx")]
+	if c.K == 0 {
+		return c
+	}
 	kinds := []string{"err", "err", "drop"}
 	if pos[c.K-1].Ins {
 		kinds = append(kinds, "dup", "dup")
